@@ -389,7 +389,7 @@ func (b *blockBuilder) build(o op) {
 			addrs, dup = append([]string{strings.ToUpper(addrs[len(addrs)-1])}, addrs...), "upper-case"
 		}
 		thr := uint64(1 + a%len(addrs))
-		execTime := b.T.Add(time.Duration(w.c.GovV+o.B) * time.Second)
+		execTime := b.T.Add(time.Duration(w.c.GovV+o.B)*time.Second + time.Duration(o.Ms)*time.Millisecond)
 		msg := bandtsstypes.NewMsgTransitionGroup(addrs, thr, execTime, sim.GovAuthority())
 		if dup == "same-string" {
 			b.proposeMalformed(msg, "propT-duplicate-member:same-string")
@@ -437,7 +437,7 @@ func (b *blockBuilder) build(o op) {
 		default:
 			target = 1
 		}
-		execTime := b.T.Add(time.Duration(w.c.GovV+o.B) * time.Second)
+		execTime := b.T.Add(time.Duration(w.c.GovV+o.B)*time.Second + time.Duration(o.Ms)*time.Millisecond)
 		b.propose("force", bandtsstypes.NewMsgForceTransitionGroup(tss.GroupID(target), execTime, sim.GovAuthority()), execTime, target)
 	case "dkg", "complain", "stop":
 		prog := w.inProgress()
@@ -686,16 +686,11 @@ func abs(x int) int {
 
 // dtFor resolves the block-ending operations to a time step.
 func (w *world) dtFor(o op) time.Duration {
-	sec := func(n int64) time.Duration {
-		if n < 1 {
-			n = 1
-		}
-		return time.Duration(n) * time.Second
-	}
+	off := time.Duration(o.A)*time.Second + time.Duration(o.Ms)*time.Millisecond
 	switch o.K {
 	case "endx": // land on ExecTime + A of the open transition
 		if w.m.tr != nil {
-			target := w.m.tr.execTime.Add(time.Duration(o.A) * time.Second)
+			target := w.m.tr.execTime.Add(off)
 			if target.After(w.ch.Time) {
 				return target.Sub(w.ch.Time)
 			}
@@ -705,7 +700,7 @@ func (w *world) dtFor(o op) time.Duration {
 	case "endv": // land on the voting end + A of the oldest open proposal
 		for _, p := range w.props {
 			if !p.done {
-				target := p.votingEnd.Add(time.Duration(o.A) * time.Second)
+				target := p.votingEnd.Add(off)
 				if target.After(w.ch.Time) {
 					return target.Sub(w.ch.Time)
 				}
@@ -715,7 +710,10 @@ func (w *world) dtFor(o op) time.Duration {
 		w.v.Count("inapplicable_endv", 1)
 		return time.Second
 	}
-	return sec(int64(o.A))
+	if off < time.Millisecond {
+		return time.Second
+	}
+	return off
 }
 
 // flush executes the buffered operations in one block ending with `end`.
@@ -731,7 +729,7 @@ func (w *world) flush(end op) bool {
 	w.pending = nil
 	res, err := w.ch.Block(b.txs, dt)
 	if err != nil {
-		w.v.Failf("C18/finalize", "FinalizeBlock failed at height %d (time %s, model transition: %s): %v", w.ch.Height+1, b.T.Format(time.RFC3339), w.m.describe(), err)
+		w.v.Failf("C18/finalize", "FinalizeBlock failed at height %d (time %s, model transition: %s): %v", w.ch.Height+1, b.T.Format(time.RFC3339Nano), w.m.describe(), err)
 		w.stopped = true
 		return false
 	}
@@ -957,6 +955,10 @@ func (w *world) onProposal(pid uint64, result string, T time.Time, h int64) {
 		cls = w.m.proposalForce(passed, p.target, p.execTime, minExec, maxExec, h, w.takeOut())
 	}
 	w.class(cls)
+	if passed && p.execTime.Nanosecond() != 0 {
+		w.class("exec-time-subsecond")
+		w.v.Count("exec_times_subsecond", 1)
+	}
 	if passed {
 		switch {
 		case p.execTime.Equal(minExec):
@@ -1174,6 +1176,20 @@ func (w *world) observe(metas []*txMeta, res *sim.BlockResult) {
 		w.v.Failf("C18/unexpected-handover-signing", "hand-over signing %d was created at height %d without a completed key generation awaiting it (%s)", w.pendingHandover, h, w.m.describe())
 		return
 	}
+	if t := w.m.tr; t != nil {
+		switch {
+		case T.Equal(t.execTime):
+			w.class("block-exactly-at-exec-time")
+		case T.Before(t.execTime) && T.Unix() == t.execTime.Unix():
+			w.class("block-in-same-second-before-exec-time")
+			w.v.Count("blocks_in_same_second_before_exec_time", 1)
+			if t.status == stWaitingExec {
+				w.class("block-in-same-second-before-exec-time:WAITING_EXECUTION")
+			}
+		case T.After(t.execTime) && T.Unix() == t.execTime.Unix():
+			w.class("block-in-same-second-after-exec-time")
+		}
+	}
 	w.class(w.m.endBlock(T, h, w.takeOut()))
 	if w.v.Violation != "" {
 		return
@@ -1199,21 +1215,21 @@ func (w *world) compare(h int64, T time.Time, curBefore uint64) {
 	gt, found := bk.GetGroupTransition(ctx)
 	switch {
 	case found && m.tr == nil:
-		w.v.Failf("C18/phantom-transition", "height %d: a transition (%s incoming %d exec %s) is stored although none is in progress", h, gt.Status, gt.IncomingGroupID, gt.ExecTime.Format(time.RFC3339))
+		w.v.Failf("C18/phantom-transition", "height %d: a transition (%s incoming %d exec %s) is stored although none is in progress", h, gt.Status, gt.IncomingGroupID, gt.ExecTime.Format(time.RFC3339Nano))
 		return
 	case !found && m.tr != nil:
-		w.v.Failf("C18/transition-lost", "height %d (time %s): the transition disappeared before ExecTime without a cause: %s", h, T.Format(time.RFC3339), m.describe())
+		w.v.Failf("C18/transition-lost", "height %d (time %s): the transition disappeared before ExecTime without a cause: %s", h, T.Format(time.RFC3339Nano), m.describe())
 		return
 	case found:
 		t := m.tr
 		if gt.Status.String() != t.status.String() || uint64(gt.IncomingGroupID) != t.incoming || uint64(gt.CurrentGroupID) != t.current ||
 			!gt.ExecTime.Equal(t.execTime) || gt.IsForceTransition != t.forced || (t.status != stCreating && !t.forced && t.current != 0 && uint64(gt.SigningID) != t.signingID) {
 			w.v.Failf("C18/transition-state", "height %d: stored transition {%s incoming=%d current=%d exec=%s force=%v signing=%d}, reference: %s", h,
-				gt.Status, gt.IncomingGroupID, gt.CurrentGroupID, gt.ExecTime.Format(time.RFC3339), gt.IsForceTransition, gt.SigningID, m.describe())
+				gt.Status, gt.IncomingGroupID, gt.CurrentGroupID, gt.ExecTime.Format(time.RFC3339Nano), gt.IsForceTransition, gt.SigningID, m.describe())
 			return
 		}
 		if !T.Before(t.execTime) {
-			w.v.Failf("C18/transition-overdue", "height %d: block time %s >= ExecTime %s but the transition is still stored", h, T.Format(time.RFC3339), t.execTime.Format(time.RFC3339))
+			w.v.Failf("C18/transition-overdue", "height %d: block time %s >= ExecTime %s but the transition is still stored", h, T.Format(time.RFC3339Nano), t.execTime.Format(time.RFC3339Nano))
 			return
 		}
 		if t.status == stWaitingExec {
